@@ -589,5 +589,14 @@ def rule_short_fields_fail(ctx):
 
 
 
+
+def rule_queue_items(ctx):
+    """(C04.m, rules/msgtransports.py)  What a message transport queues for the receive loop comes from the frame
+    parser (or is the end-of-connection marker)."""
+    from .msgtransports import rule_queue_items_come_from_the_parser
+    rule_queue_items_come_from_the_parser(ctx, 'C04.m')
+
+
+
 RULES = [('C04.a', rule_a), ('C04.b', rule_b), ('C04.c', rule_c), ('C04.d', rule_d), ('C04.e', rule_e),
-         ('C04.f', rule_f), ('C12.e', rule_g), ('C12.a', rule_h), ('C04.g', rule_i), ('C04.h', rule_j), ('C04.i', rule_k), ('C02.h', rule_decoder_entry), ('C04.j', rule_marker_queues), ('C04.k', rule_decoded_frames_yielded), ('C04.l', rule_short_fields_fail)]
+         ('C04.f', rule_f), ('C12.e', rule_g), ('C12.a', rule_h), ('C04.g', rule_i), ('C04.h', rule_j), ('C04.i', rule_k), ('C02.h', rule_decoder_entry), ('C04.j', rule_marker_queues), ('C04.k', rule_decoded_frames_yielded), ('C04.l', rule_short_fields_fail), ('C04.m', rule_queue_items)]
